@@ -272,6 +272,34 @@ func report(l *Loaded, cfg *Config, spec *Spec, obs []*Obligation, results map[s
 		solverS += r.Solver.Seconds
 		fmt.Printf("  %-28s %-13s items=%d paths=%d forks=%d asserts=%d verdicts=%d queries=%d solver=%.1fs wall=%.1fs\n", o.Name, status, r.Items, r.Paths, r.Forks, r.Asserts, r.Verdicts, r.Solver.Queries, r.Solver.Seconds, r.Seconds)
 	}
+	// lock-order graph over all obligations of this property: a cycle is a potential deadlock
+	if cyc := lockCycle(lockOrder); cyc != "" {
+		f := Failure{Kind: "deadlock", Msg: "lock-order cycle " + cyc, Pos: "lock-order graph"}
+		isKnown := false
+		for _, k := range known {
+			if k.matches(prop, "lock-order", f) {
+				isKnown = true
+				knownHits++
+				fmt.Printf("KNOWN-FINDING: property=%s %s [lock-order cycle %s]\n", prop, k.Text, cyc)
+			}
+		}
+		if !isKnown {
+			violations++
+			dir := filepath.Join(verifDir, "evidence", "replay", prop)
+			os.MkdirAll(dir, 0o755)
+			path := filepath.Join(dir, "lock-order-cycle.json")
+			var edges []string
+			for k := range lockOrder {
+				edges = append(edges, k)
+			}
+			sort.Strings(edges)
+			b, _ := json.MarshalIndent(map[string]interface{}{"property": prop, "kind": "deadlock", "cycle": cyc, "edges": edges,
+				"explanation": "each edge A -> B was observed on a feasible symbolic path: a goroutine acquired B while holding A; two goroutines taking the edges of the cycle concurrently block each other forever"}, "", " ")
+			os.WriteFile(path, b, 0o644)
+			violationLines = append(violationLines, fmt.Sprintf("VIOLATION property=%s replay=%s", prop, path))
+			fmt.Printf("  failed: lock-order cycle (potential deadlock): %s\n", cyc)
+		}
+	}
 	for _, vl := range violationLines {
 		fmt.Println(vl)
 	}
@@ -358,4 +386,51 @@ func writeEvidenceLoadFailure(prop, tier string, cfg *Config, err error, wall fl
 	os.MkdirAll(filepath.Join(verifDir, "evidence"), 0o755)
 	b, _ := json.MarshalIndent(ev, "", " ")
 	os.WriteFile(filepath.Join(verifDir, "evidence", prop+".json"), b, 0o644)
+}
+
+// lockCycle finds a cycle in the graph given as a set of "A -> B" edges (self-loops ignored).
+func lockCycle(edges map[string]bool) string {
+	adj := map[string][]string{}
+	for e := range edges {
+		p := strings.SplitN(e, " -> ", 2)
+		if len(p) == 2 && p[0] != p[1] {
+			adj[p[0]] = append(adj[p[0]], p[1])
+		}
+	}
+	var nodes []string
+	for k := range adj {
+		sort.Strings(adj[k])
+		nodes = append(nodes, k)
+	}
+	sort.Strings(nodes)
+	state := map[string]int{}
+	var stack []string
+	var found string
+	var dfs func(n string) bool
+	dfs = func(n string) bool {
+		state[n] = 1
+		stack = append(stack, n)
+		for _, m := range adj[n] {
+			if state[m] == 1 {
+				i := 0
+				for stack[i] != m {
+					i++
+				}
+				found = strings.Join(append(append([]string{}, stack[i:]...), m), " -> ")
+				return true
+			}
+			if state[m] == 0 && dfs(m) {
+				return true
+			}
+		}
+		stack = stack[:len(stack)-1]
+		state[n] = 2
+		return false
+	}
+	for _, n := range nodes {
+		if state[n] == 0 && dfs(n) {
+			return found
+		}
+	}
+	return ""
 }
